@@ -110,6 +110,25 @@ func (ev *Evaluator) static(v Val, depth int) (Val, string) {
 	if tv, ok := info.Types[e]; ok && tv.Value != nil {
 		return Val{e, info}, ""
 	}
+	// a function value that names its code: a literal, a function, a method expression
+	switch f := e.(type) {
+	case *ast.FuncLit:
+		return Val{e, info}, ""
+	case *ast.Ident:
+		if _, isFunc := info.Uses[f].(*types.Func); isFunc {
+			return Val{e, info}, ""
+		}
+	case *ast.SelectorExpr:
+		if fn, isFunc := info.Uses[f.Sel].(*types.Func); isFunc {
+			if sig := fn.Type().(*types.Signature); sig.Recv() == nil {
+				return Val{e, info}, "" // pkg.Func
+			}
+			if tv, ok := info.Types[f.X]; ok && tv.IsType() {
+				return Val{e, info}, "" // T.Method
+			}
+			return Val{}, "method value " + types.ExprString(e) + " (its receiver is bound elsewhere)"
+		}
+	}
 	switch e := e.(type) {
 	case *ast.CompositeLit:
 		return Val{e, info}, ""
@@ -396,6 +415,8 @@ type Unrolled struct {
 	Producer     *ast.FuncDecl
 	ProducerName string
 	Sub          *Decomp
+	// Descending: a walk over the set bits that starts at the highest one.
+	Descending bool
 	// WordInside: the flag word (under the bindings of the function the loop
 	// belongs to) occurs inside the loop.
 	WordInside bool
@@ -533,16 +554,48 @@ func (ev *Evaluator) unroll(s ast.Stmt) (*Unrolled, []iteration, *ast.BlockStmt)
 		}
 		// slices.Sorted(maps.Keys(T)) / slices.Sorted(maps.Values(T)): the keys (values) of a
 		// constant map in a deterministic order
-		if call, ok := ast.Unparen(s.X).(*ast.CallExpr); ok && IsPkgFunc(StaticCallee(info, call), "slices", "Sorted") && len(call.Args) == 1 {
+		// the operand seen through a once-defined local or a package-level variable
+		// initialised by a call (`var sortedKeys = slices.Sorted(maps.Keys(T))`)
+		sx, sinfo := ast.Unparen(s.X), info
+		var holder *types.Var
+		{
+			var id *ast.Ident
+			switch x := sx.(type) {
+			case *ast.Ident:
+				id = x
+			case *ast.SelectorExpr:
+				if pid, ok := ast.Unparen(x.X).(*ast.Ident); ok {
+					if _, isPkg := info.Uses[pid].(*types.PkgName); isPkg {
+						id = x.Sel
+					}
+				}
+			}
+			if id != nil {
+				o := info.Uses[id]
+				if rhs, ok := ev.Defs[o]; ok {
+					if c, isCall := ast.Unparen(rhs).(*ast.CallExpr); isCall {
+						sx = c
+					}
+				} else if v, ok := o.(*types.Var); ok && !v.IsField() && v.Pkg() != nil && v.Parent() == v.Pkg().Scope() && ev.Vars != nil {
+					if init, vinfo := ev.Vars(v); init != nil && vinfo != nil {
+						if c, isCall := ast.Unparen(init).(*ast.CallExpr); isCall {
+							sx, sinfo, holder = c, vinfo, v
+						}
+					}
+				}
+			}
+		}
+		if call, ok := sx.(*ast.CallExpr); ok && IsPkgFunc(StaticCallee(sinfo, call), "slices", "Sorted") && len(call.Args) == 1 {
 			if inner, ok := ast.Unparen(call.Args[0]).(*ast.CallExpr); ok && len(inner.Args) == 1 {
-				fn := StaticCallee(info, inner)
+				fn := StaticCallee(sinfo, inner)
 				keys, vals := IsPkgFunc(fn, "maps", "Keys"), IsPkgFunc(fn, "maps", "Values")
 				if keys || vals {
-					ct, why := ev.Table(inner.Args[0])
+					ct, why := ev.with(sinfo).Table(inner.Args[0])
 					if why != "" || ct.Kind != "map" {
 						u.Why = "the sorted keys are not those of a constant map: " + why
 						return u, nil, s.Body
 					}
+					ev.noteTable(holder)
 					u.Table, u.Kind, u.N = ct, "array", len(ct.Rows)
 					var its []iteration
 					for _, row := range ct.Rows {
